@@ -346,8 +346,13 @@ class TimeShim:
         return self._w.sim.time()
 
 
+_REAL = {}
+
+
 def install_storage(world):
-    """Rebind the storage / os / time seams of the ElectrumX modules to the world's models."""
+    """Rebind the storage / os / time seams of the ElectrumX modules to the world's models.
+    With world.real_storage (self-test only) the file and database seams keep their real
+    implementations (LevelDB in a scratch directory) and only the clocks are simulated."""
     import electrumx.lib.util as util
     import electrumx.server.storage as storage
     import electrumx.server.db as dbmod
@@ -361,6 +366,16 @@ def install_storage(world):
     import electrumx.lib.text as textmod
     import aiorpcx.session as arsess
 
+    if not _REAL:
+        _REAL.update(open_file=util.open_file, open_truncate=util.open_truncate, os=dbmod.os)
+    if getattr(world, 'real_storage', None):
+        util.open_file, util.open_truncate = _REAL['open_file'], _REAL['open_truncate']
+        bpmod.open_file, dmod.open_truncate = _REAL['open_file'], _REAL['open_truncate']
+        dbmod.os = bpmod.os = storage.os = sessmod.os = _REAL['os']
+        tshim = TimeShim(world)
+        for m in (dmod, dbmod, hmod, mpmod, peersmod, sessmod, sbmod, textmod, arsess):
+            m.time = tshim
+        return tshim
     fs = world.fs
 
     def open_file(filename, create=False):
